@@ -37,12 +37,14 @@ class EntryMonitor:
 
         def wrapper(*a, **k):
             align = False
+            stage2 = False
             if kind == 'dabt' and a:
                 try:
                     align = bool(a[0].is_alignment_fault())
+                    stage2 = bool(a[0].second_stage_abort())
                 except Exception:
                     align = False
-            s = EM.pre_state(arm, mon.cfg, align)
+            s = EM.pre_state(arm, mon.cfg, align, stage2)
             pre = M.light(arm)
             out = real(*a, **k)
             post = M.light(arm)
